@@ -55,6 +55,28 @@ Lemma recv_end_op_ref s t n err :
   lget (RecvRefused t) (recv_end_op s n err) = if signal_eqb s t && err then n else 0.
 Proof. intros Ht. destruct s, t, err; try congruence; simpl; lia. Qed.
 
+Definition is_span_counter (c : counter) : bool :=
+  match c with
+  | SpanAcc _ | SpanRef _ | SpanScraped _ | SpanErrored _ | SpanSent _ | SpanFailed _ => true
+  | _ => false
+  end.
+
+(* the span part never touches an instrument *)
+Lemma recv_end_span_real rc s n e c : is_span_counter c = false -> lget c (recv_end_span rc s n e) = 0.
+Proof. intros H. destruct rc, s, e, c; simpl in *; try discriminate; lia. Qed.
+
+(* the instruments do not depend on whether the span records *)
+Lemma recv_full_real rc s n e c :
+  is_span_counter c = false -> lget c (recv_end_op_full rc s n e) = lget c (recv_end_op s n e).
+Proof. intros H. unfold recv_end_op_full. rewrite lget_app, recv_end_span_real by exact H. lia. Qed.
+
+(* when the span records, its attributes carry the numbers recorded under the instruments *)
+Lemma recv_full_span s n e :
+  s <> Profiles ->
+  lget (SpanAcc s) (recv_end_op_full true s n e) = lget (RecvAccepted s) (recv_end_op_full true s n e) /\
+  lget (SpanRef s) (recv_end_op_full true s n e) = lget (RecvRefused s) (recv_end_op_full true s n e).
+Proof. intros H. destruct s, e; try congruence; simpl; lia. Qed.
+
 Lemma sumZ_map_if {A} (p : A -> bool) (f : A -> Z) l :
   sumZ (map (fun x => if p x then f x else 0) l) = sumZ (map f (filter p l)).
 Proof. induction l as [|x l IH]; simpl; auto. destruct (p x); simpl; lia. Qed.
@@ -65,7 +87,7 @@ Lemma recv_run_acc ops t :
   sumZ (map ro_n (filter (fun o => signal_eqb (ro_sig o) t && negb (ro_err o)) ops)).
 Proof.
   intros Ht. unfold recv_run. rewrite lget_flat_map, <- sumZ_map_if. f_equal.
-  apply map_ext. intros o. now rewrite recv_end_op_acc.
+  apply map_ext. intros o. rewrite recv_full_real by reflexivity. now rewrite recv_end_op_acc.
 Qed.
 
 Lemma recv_run_ref ops t :
@@ -74,7 +96,7 @@ Lemma recv_run_ref ops t :
   sumZ (map ro_n (filter (fun o => signal_eqb (ro_sig o) t && ro_err o) ops)).
 Proof.
   intros Ht. unfold recv_run. rewrite lget_flat_map, <- sumZ_map_if. f_equal.
-  apply map_ext. intros o. now rewrite recv_end_op_ref.
+  apply map_ext. intros o. rewrite recv_full_real by reflexivity. now rewrite recv_end_op_ref.
 Qed.
 
 Lemma recv_run_total ops t :
@@ -89,35 +111,35 @@ Qed.
 
 (* counters that are not receiver counters never move in a receiver history *)
 Definition is_recv_counter (c : counter) : bool :=
-  match c with RecvAccepted _ | RecvRefused _ => true | _ => false end.
+  match c with RecvAccepted _ | RecvRefused _ | SpanAcc _ | SpanRef _ => true | _ => false end.
 
 Lemma recv_run_foreign ops c : is_recv_counter c = false -> lget c (recv_run ops) = 0.
 Proof.
   intros Hc. unfold recv_run. rewrite lget_flat_map.
   induction ops as [|o ops IH]; simpl; auto. rewrite IH.
-  destruct o as [s n e]; destruct s, e, c; simpl in *; try discriminate; lia.
+  destruct o as [s n e r]; destruct s, e, r, c; simpl in *; try discriminate; lia.
 Qed.
 
 (* ------------------------------- scraper controller --------------------------------------- *)
 
-Lemma scr_wrap_recv k r c : is_recv_counter c = true -> lget c (scr_wrap k r) = 0.
-Proof. intros Hc. destruct c; try discriminate; destruct k; simpl; lia. Qed.
+Lemma scr_wrap_recv rc k r c : is_recv_counter c = true -> lget c (scr_wrap rc k r) = 0.
+Proof. intros Hc. destruct c; try discriminate; destruct k, rc; simpl; lia. Qed.
 
-Lemma flat_wrap_recv k rs c : is_recv_counter c = true -> lget c (flat_map (scr_wrap k) rs) = 0.
+Lemma flat_wrap_recv rc k rs c : is_recv_counter c = true -> lget c (flat_map (scr_wrap rc k) rs) = 0.
 Proof.
   intros Hc. rewrite lget_flat_map. induction rs as [|r rs IH]; [reflexivity|].
   cbn [map sumZ]. rewrite IH, scr_wrap_recv by assumption. lia.
 Qed.
 
 (* BOTH controllers record under the METRICS receiver counters *)
-Lemma scrape_recv k rs e c :
-  is_recv_counter c = true -> lget c (scrape k rs e) = lget c (recv_end_op Metrics (scr_offered rs) e).
+Lemma scrape_recv rc k rs e c :
+  is_recv_counter c = true -> lget c (scrape rc k rs e) = lget c (recv_end_op_full rc Metrics (scr_offered rs) e).
 Proof. intros Hc. unfold scrape. rewrite lget_app, flat_wrap_recv by assumption. lia. Qed.
 
-Lemma scr_run_recv k ops c :
+Lemma scr_run_recv rc k ops c :
   is_recv_counter c = true ->
-  lget c (scr_run k ops) =
-  lget c (recv_run (map (fun o => {| ro_sig := Metrics; ro_n := scr_offered (so_res o); ro_err := so_err o |}) ops)).
+  lget c (scr_run rc k ops) =
+  lget c (recv_run (map (fun o => {| ro_sig := Metrics; ro_n := scr_offered (so_res o); ro_err := so_err o; ro_rec := rc |}) ops)).
 Proof.
   intros Hc. unfold scr_run, recv_run. rewrite !lget_flat_map, map_map. f_equal.
   apply map_ext. intros o. simpl. now apply scrape_recv.
@@ -127,10 +149,10 @@ Definition scr_total (ops : list scr_op) : Z := sumZ (map (fun o => scr_offered 
 Definition scr_total_ok (ops : list scr_op) : Z :=
   sumZ (map (fun o => scr_offered (so_res o)) (filter (fun o => negb (so_err o)) ops)).
 
-Lemma scr_run_metric_points k ops :
-  lget (RecvAccepted Metrics) (scr_run k ops) + lget (RecvRefused Metrics) (scr_run k ops) = scr_total ops /\
-  lget (RecvAccepted Metrics) (scr_run k ops) = scr_total_ok ops /\
-  (forall s, s <> Metrics -> lget (RecvAccepted s) (scr_run k ops) = 0 /\ lget (RecvRefused s) (scr_run k ops) = 0).
+Lemma scr_run_metric_points rc k ops :
+  lget (RecvAccepted Metrics) (scr_run rc k ops) + lget (RecvRefused Metrics) (scr_run rc k ops) = scr_total ops /\
+  lget (RecvAccepted Metrics) (scr_run rc k ops) = scr_total_ok ops /\
+  (forall s, s <> Metrics -> lget (RecvAccepted s) (scr_run rc k ops) = 0 /\ lget (RecvRefused s) (scr_run rc k ops) = 0).
 Proof.
   repeat split.
   - rewrite !scr_run_recv by reflexivity. rewrite recv_run_total by discriminate.
@@ -140,10 +162,10 @@ Proof.
     destruct (so_err o); simpl; rewrite IH; reflexivity.
   - rewrite scr_run_recv by reflexivity. unfold recv_run. rewrite lget_flat_map, map_map.
     induction ops as [|o ops IH]; [reflexivity|]. cbn [map sumZ]. rewrite IH.
-    destruct s, (so_err o); try congruence; simpl; lia.
+    destruct s, rc, (so_err o); try congruence; simpl; lia.
   - rewrite scr_run_recv by reflexivity. unfold recv_run. rewrite lget_flat_map, map_map.
     induction ops as [|o ops IH]; [reflexivity|]. cbn [map sumZ]. rewrite IH.
-    destruct s, (so_err o); try congruence; simpl; lia.
+    destruct s, rc, (so_err o); try congruence; simpl; lia.
 Qed.
 
 (* scraped / errored counters of the wrappers *)
@@ -151,20 +173,20 @@ Definition scr_scraped_of (k : scr_kind) (r : scr_res) : Z :=
   match sr_err r with SFull => 0 | _ => match k with KMetrics => sr_metrics r | KLogs => sr_items r end end.
 Definition scr_errored_of (r : scr_res) : Z := match sr_err r with SPartial f => f | _ => 0 end.
 
-Lemma scr_run_scraped k ops :
-  lget (ScrScraped (sig_of_kind k)) (scr_run k ops) = sumZ (map (fun o => sumZ (map (scr_scraped_of k) (so_res o))) ops) /\
-  lget (ScrErrored (sig_of_kind k)) (scr_run k ops) = sumZ (map (fun o => sumZ (map scr_errored_of (so_res o))) ops).
+Lemma scr_run_scraped rc k ops :
+  lget (ScrScraped (sig_of_kind k)) (scr_run rc k ops) = sumZ (map (fun o => sumZ (map (scr_scraped_of k) (so_res o))) ops) /\
+  lget (ScrErrored (sig_of_kind k)) (scr_run rc k ops) = sumZ (map (fun o => sumZ (map scr_errored_of (so_res o))) ops).
 Proof.
   unfold scr_run. rewrite !lget_flat_map. split; f_equal; apply map_ext; intros o; unfold scrape;
     rewrite lget_app, lget_flat_map.
-  - replace (lget (ScrScraped (sig_of_kind k)) (recv_end_op Metrics (scr_offered (so_res o)) (so_err o))) with 0
-      by (destruct k, (so_err o); simpl; lia).
+  - replace (lget (ScrScraped (sig_of_kind k)) (recv_end_op_full rc Metrics (scr_offered (so_res o)) (so_err o))) with 0
+      by (destruct k, rc, (so_err o); simpl; lia).
     rewrite Z.add_0_r. f_equal. apply map_ext. intros r.
-    unfold scr_wrap, scr_scraped_of. destruct k, (sr_err r); simpl; lia.
-  - replace (lget (ScrErrored (sig_of_kind k)) (recv_end_op Metrics (scr_offered (so_res o)) (so_err o))) with 0
-      by (destruct k, (so_err o); simpl; lia).
+    unfold scr_wrap, scr_scraped_of. destruct k, rc, (sr_err r); simpl; lia.
+  - replace (lget (ScrErrored (sig_of_kind k)) (recv_end_op_full rc Metrics (scr_offered (so_res o)) (so_err o))) with 0
+      by (destruct k, rc, (so_err o); simpl; lia).
     rewrite Z.add_0_r. f_equal. apply map_ext. intros r.
-    unfold scr_wrap, scr_errored_of. destruct k, (sr_err r); simpl; lia.
+    unfold scr_wrap, scr_errored_of. destruct k, rc, (sr_err r); simpl; lia.
 Qed.
 
 (* S5 witness: one logs scrape, one scraper, 14 records, consumer accepts *)
@@ -173,8 +195,8 @@ Definition s5_witness : list scr_op :=
 
 Lemma s5_refuted_l :
   exists ops,
-    lget (RecvAccepted Logs) (scr_run KLogs ops) + lget (RecvRefused Logs) (scr_run KLogs ops) <> scr_total ops /\
-    scr_total ops = 14 /\ lget (RecvAccepted Metrics) (scr_run KLogs ops) = 14.
+    lget (RecvAccepted Logs) (scr_run true KLogs ops) + lget (RecvRefused Logs) (scr_run true KLogs ops) <> scr_total ops /\
+    scr_total ops = 14 /\ lget (RecvAccepted Metrics) (scr_run true KLogs ops) = 14.
 Proof. exists s5_witness. vm_compute. repeat split; discriminate. Qed.
 
 (* ------------------------------- processor helper ----------------------------------------- *)
@@ -214,4 +236,58 @@ Proof.
   destruct o as [n r]; destruct r; cbn; rewrite ?signal_eqb_refl; repeat split; try lia;
     try (intros [H|H]; discriminate);
     intros c H1 H2; rewrite (counter_eqb_neq _ _ H1), (counter_eqb_neq _ _ H2); lia.
+Qed.
+
+(* ------------------------------- tracing does not matter ----------------------------------- *)
+
+Definition ro_core (o : recv_op) : signal * Z * bool := (ro_sig o, ro_n o, ro_err o).
+
+(* two receiver histories that differ only in which spans record move every instrument alike *)
+Lemma recv_run_tracing_irrelevant ops ops' c :
+  is_span_counter c = false -> map ro_core ops = map ro_core ops' ->
+  lget c (recv_run ops) = lget c (recv_run ops').
+Proof.
+  intros Hc E. unfold recv_run. rewrite !lget_flat_map.
+  assert (G : forall l, map (fun o => lget c (recv_end_op_full (ro_rec o) (ro_sig o) (ro_n o) (ro_err o))) l
+                        = map (fun t => lget c (recv_end_op (fst (fst t)) (snd (fst t)) (snd t))) (map ro_core l)).
+  { intros l. rewrite map_map. apply map_ext. intros o. now rewrite recv_full_real. }
+  now rewrite !G, E.
+Qed.
+
+Lemma recv_op_span_match s s' n e :
+  s <> Profiles ->
+  lget (SpanAcc s) (recv_end_op_full true s' n e) = lget (RecvAccepted s) (recv_end_op_full true s' n e) /\
+  lget (SpanRef s) (recv_end_op_full true s' n e) = lget (RecvRefused s) (recv_end_op_full true s' n e).
+Proof. intros H. destruct s, s', e; try congruence; simpl; lia. Qed.
+
+Lemma recv_op_span_silent s s' n e :
+  lget (SpanAcc s) (recv_end_op_full false s' n e) = 0 /\ lget (SpanRef s) (recv_end_op_full false s' n e) = 0.
+Proof. destruct s, s', e; simpl; lia. Qed.
+
+(* every span recording: the span attributes add up to the counters; no span recording: nothing *)
+Lemma recv_run_span ops s :
+  s <> Profiles ->
+  ((forall o, In o ops -> ro_rec o = true) ->
+     lget (SpanAcc s) (recv_run ops) = lget (RecvAccepted s) (recv_run ops) /\
+     lget (SpanRef s) (recv_run ops) = lget (RecvRefused s) (recv_run ops)) /\
+  ((forall o, In o ops -> ro_rec o = false) ->
+     lget (SpanAcc s) (recv_run ops) = 0 /\ lget (SpanRef s) (recv_run ops) = 0).
+Proof.
+  intros Hs. unfold recv_run. split; intros H; induction ops as [|o ops IH]; cbn [flat_map]; try (split; reflexivity);
+    rewrite !lget_app; destruct IH as [I1 I2]; try (intros o' Ho'; apply H; now right).
+  - rewrite (H o (or_introl eq_refl)).
+    destruct (recv_op_span_match s (ro_sig o) (ro_n o) (ro_err o) Hs) as [A B]. rewrite A, B, I1, I2. split; reflexivity.
+  - rewrite (H o (or_introl eq_refl)).
+    destruct (recv_op_span_silent s (ro_sig o) (ro_n o) (ro_err o)) as [A B]. rewrite A, B, I1, I2. split; reflexivity.
+Qed.
+
+Lemma scr_wrap_real rc rc' k r c : is_span_counter c = false -> lget c (scr_wrap rc k r) = lget c (scr_wrap rc' k r).
+Proof. intros H. destruct rc, rc', k, c; simpl in *; try discriminate; reflexivity. Qed.
+
+Lemma scr_run_tracing_irrelevant rc rc' k ops c :
+  is_span_counter c = false -> lget c (scr_run rc k ops) = lget c (scr_run rc' k ops).
+Proof.
+  intros Hc. unfold scr_run. rewrite !lget_flat_map. f_equal. apply map_ext. intros o.
+  unfold scrape. rewrite !lget_app, !lget_flat_map, !recv_full_real by exact Hc. f_equal.
+  f_equal. apply map_ext. intros r. now apply scr_wrap_real.
 Qed.
